@@ -29,6 +29,8 @@
     lex_string_wf_partial          ASCII-only sources: that label is fully WF
     lex_string_wf_utf8_partial     every UTF-8 source: fully WF unless the error is an invalid escape
                                    with a non-ASCII character (exact complement of D_lexer_char_span)
+    lex_nested_wf_partial          nested lexer of the query look-ahead: WF unless D_lexer_char_span or
+                                   "unterminated string" (label one past the quote: D_eof_span)
     lex_quoted_wf                  all sources: the label of an unterminated s'/r'/t' literal is WF
 -/
 import VrlProofs.Lemmas.C33
@@ -177,6 +179,53 @@ theorem lex_string_wf_utf8_partial (tl : List Nat) (e : LexErr) (hu : wfUtf8 (34
   unfold lexStringAt0 at h
   rw [hdrop] at h
   exact scanString_label_wf (34 :: tl) 0 rfl hs.2.1 (by simp) _ .normal 1 e hc (by simp [StB]) h hcl
+
+theorem offsetBy_label (e : LexErr) (o : Nat) :
+    (e.offsetBy o).label = ⟨e.label.start + o, e.label.stop + o⟩ := by
+  cases e <;> simp [LexErr.offsetBy, LexErr.label] <;> omega
+
+/-- the nested lexer of `query_start` (string opened at byte `pos` inside a delimited region):
+    every error label is well-formed EXCEPT in the classes D_lexer_char_span (`splitsChar`) and
+    "unterminated string" — whose label `(pos + 1, pos + 2)` points one past the opening quote
+    (D_eof_span: past the end / inside the first character of the string). -/
+theorem lex_nested_wf_partial (src : List Nat) (pos : Nat) (e : LexErr)
+    (hpos : pos + 1 ≤ src.length) (hu : wfUtf8 (src.drop (pos + 1)) = true)
+    (h : lexNestedString src pos = .error e) (hcl : e.splitsChar = false)
+    (hs : ∀ s, e ≠ .stringLiteral s) : WF src e.label := by
+  unfold lexNestedString at h
+  generalize hsub : src.drop (pos + 1) = sub at h hu
+  cases hscan : scanString sub.length 0 .normal (charIndices sub) with
+  | ok v => simp [hscan] at h
+  | error e0 =>
+    simp only [hscan] at h
+    cases h
+    have hcl0 : e0.splitsChar = false := by
+      cases e0 with
+      | escapeChar st ch =>
+        cases ch with
+        | none => rfl
+        | some c => simpa [LexErr.offsetBy, LexErr.splitsChar] using hcl
+      | _ => rfl
+    have hc : Chain sub 0 (charIndices sub) := by
+      have := chain_charIndicesFrom 0 sub [] rfl hu
+      simpa [charIndices] using this
+    have hsrc : src.take (pos + 1) ++ sub = src := by rw [← hsub]; exact List.take_append_drop _ _
+    have hlen : (src.take (pos + 1)).length = pos + 1 := by simp; omega
+    rcases scanString_label_wf' sub 0 _ .normal 0 e0 hc (by simp [StB]) hscan hcl0 with h1 | h1
+    · subst h1; exact absurd rfl (hs _)
+    · have hne : sub ≠ [] := by
+        intro hnil; subst hnil
+        simp [charIndices, charIndicesFrom, scanString] at hscan
+        subst hscan; exact absurd rfl (hs _)
+      have hpos' : 0 < sub.length := List.length_pos_iff.mpr hne
+      have hp : PosOK sub.length 0 (charIndices sub) := by
+        have := posOK_charIndicesFrom 0 sub
+        simpa [charIndices] using this
+      have hr := scanString_label_range sub.length 0 hpos' _ .normal 0 e0 hp (Nat.zero_le _)
+        (by simp [StOK]) hscan
+      have := WF_shift (src.take (pos + 1)) sub hu e0.label h1 hr.1
+      rw [hsrc, hlen] at this
+      rw [offsetBy_label]; exact this
 
 /-- all sources: an unterminated `s'…`, `r'…`, `t'…` literal at the start of the source is
     reported at `(0, 1)`, which is well-formed. -/
